@@ -5289,17 +5289,22 @@ class System(object, metaclass=SystemMetaclass):
             discrete_outputs = self._discrete_outputs
             filt = self._filtered_vars_to_record
 
-            data = {'input': {}, 'output': {}, 'residual': {}}
-            if options['record_inputs'] and (inputs._names or len(discrete_inputs) > 0):
-                data['input'] = self._retrieve_data_of_kind(filt, 'input', vec_name, local)
+            # Iterations are recorded while the model is in a scaled state.  Cases hold values in
+            # physical units (like driver and problem cases), and the retrieved values are views
+            # into the vectors, so the recorders are called before the vectors are scaled back.
+            with self._unscaled_context(outputs=[outputs], residuals=[residuals]):
+                data = {'input': {}, 'output': {}, 'residual': {}}
+                if options['record_inputs'] and (inputs._names or len(discrete_inputs) > 0):
+                    data['input'] = self._retrieve_data_of_kind(filt, 'input', vec_name, local)
 
-            if options['record_outputs'] and (outputs._names or len(discrete_outputs) > 0):
-                data['output'] = self._retrieve_data_of_kind(filt, 'output', vec_name, local)
+                if options['record_outputs'] and (outputs._names or len(discrete_outputs) > 0):
+                    data['output'] = self._retrieve_data_of_kind(filt, 'output', vec_name, local)
 
-            if options['record_residuals'] and residuals._names:
-                data['residual'] = self._retrieve_data_of_kind(filt, 'residual', vec_name, local)
+                if options['record_residuals'] and residuals._names:
+                    data['residual'] = self._retrieve_data_of_kind(filt, 'residual', vec_name,
+                                                                   local)
 
-            self._rec_mgr.record_iteration(self, data, metadata)
+                self._rec_mgr.record_iteration(self, data, metadata)
 
         # All calls to _solve_nonlinear are recorded, The counter is incremented after recording.
         self.iter_count += 1
